@@ -46,7 +46,7 @@ theorem zipWith_addSigned (r : α) : ∀ (y : List α) (o : List Int), Inv.pm1 o
     exact ⟨addSigned_pm a r s ho.1, zipWith_addSigned r y o ho.2⟩
 
 /-- `yLoop` adds to `y` the cube point of the digits it extracts -/
-theorem yLoop_eq {n : Nat} (hn : 2 ≤ n ∧ n ≤ 5) (x1 : Bool) : ∀ (k : Nat) (d r : α) (s : St)
+theorem yLoop_eq {n : Nat} (hn : Ev.DimOK n) (x1 : Bool) : ∀ (k : Nat) (d r : α) (s : St)
     (y : List α), Inv.Valid n s → y.length = n → validDigits n (loopDigits n x1 k d) →
     yLoop n x1 k d r s y =
       List.zipWith (· + ·) y (ptOf n (signs n s (loopDigits n x1 k d)) r)
@@ -114,13 +114,13 @@ theorem loopDigits_false (n k : Nat) (d : α) (h0 : 0 ≤ d) (h1 : d < 1) :
   exact this.symm
 
 /-- `imageCube` is the cube point of the extracted digits -/
-theorem imageCube_eq {n : Nat} (hn : 2 ≤ n ∧ n ≤ 5) (m : Nat) (x : α)
+theorem imageCube_eq {n : Nat} (hn : Ev.DimOK n) (m : Nat) (x : α)
     (hd : validDigits n (loopDigits n (decide ((1 : α) ≤ x)) m x)) :
     imageCube n m x =
       ptOf n (signs n (St.init n) (loopDigits n (decide ((1 : α) ≤ x)) m x)) (1 / 2) := by
   have h1 : (n == 1) = false := by
-    rw [beq_eq_false_iff_ne]; omega
-  have hv := Inv.valid_init n (by omega)
+    rw [beq_eq_false_iff_ne]; exact hn.ne_one
+  have hv := Inv.valid_init n hn.pos
   simp only [imageCube, h1, Bool.false_eq_true, if_false]
   rw [yLoop_eq hn _ m x half _ _ hv (by simp) hd, half_eq]
   have hl := length_ptOf (α := α) _ (1 / 2) (signList_signs hn _ _ hv hd)
@@ -130,7 +130,7 @@ theorem imageCube_eq {n : Nat} (hn : 2 ≤ n ∧ n ≤ 5) (m : Nat) (x : α)
     simp
 
 /-- (3), first part: every point of subinterval `i` is mapped to the centre of cell `i` -/
-theorem imageCube_cell {n : Nat} (hn : 2 ≤ n ∧ n ≤ 5) (m : Nat) (x : α) (h0 : 0 ≤ x)
+theorem imageCube_cell {n : Nat} (hn : Ev.DimOK n) (m : Nat) (x : α) (h0 : 0 ≤ x)
     (h1 : x < 1) :
     imageCube n m x = (cubeY n (digitsOf n m ⌊x * (2^n)^m⌋₊)).map
       (fun (Y : Int) => (Y : α) / 2^(m+1)) := by
@@ -142,7 +142,7 @@ theorem imageCube_cell {n : Nat} (hn : 2 ≤ n ∧ n ≤ 5) (m : Nat) (x : α) (
   rw [this, imageCube_eq hn m x (by rw [hx, e]; exact hd), hx, e]
 
 /-- (3), second part: the end rule `x >= 1.0` gives the centre of the last cell -/
-theorem imageCube_end {n : Nat} (hn : 2 ≤ n ∧ n ≤ 5) (m : Nat) (x : α) (h1 : 1 ≤ x) :
+theorem imageCube_end {n : Nat} (hn : Ev.DimOK n) (m : Nat) (x : α) (h1 : 1 ≤ x) :
     imageCube n m x = (cubeY n (List.replicate m (2^n - 1))).map
       (fun (Y : Int) => (Y : α) / 2^(m+1)) := by
   have hx : decide ((1 : α) ≤ x) = true := by simpa using h1
